@@ -272,6 +272,15 @@ def gen_cases(ctx):
     return cases
 
 
+def amplifies(rx, tmpl):
+    """a repeatable rule whose template re-encodes a capture can feed itself, or another repeatable rule that feeds it back, and then
+    grows the target by a constant factor per round (base64url: 4/3, esc: up to 3): 100 rounds are bounded in number but not in size -
+    the server process dies of it (li_base64_enc asserts at 3 GiB) and so does the extracted model (stack).  That is what an
+    administrator gets for such a rule, not a statement about mapping; the generator keeps re-encoding templates in the rewrite-once
+    part (observation in DESIGN 11.6)."""
+    return re.search(rb"[$%]\{[^}]*(encb64u|esc)[^}]*\}", tmpl) is not None
+
+
 def gen_rule_cases(ctx):
     """stage-1 lines for the C harness (real PCRE2); the model lines are built from the outcomes it reports"""
     rng = ctx.rng
@@ -289,7 +298,9 @@ def gen_rule_cases(ctx):
         if rng.random() < 0.6:
             P.append((tg, b"http", b"h.ex", 80, q, rules))
         else:
-            R.append((tg, rng.randrange(0, n + 1), b"h.ex", 80, rules))
+            rep = rng.randrange(0, n + 1)
+            if any(amplifies(rx, t) for rx, t in rules[rep:]): rep = n      # see amplifies(): keep the rule, apply it once
+            R.append((tg, rep, b"h.ex", 80, rules))
     # loops: self-feeding rules with once/repeat placement
     for rep in (0, 1, 2):
         for tg in (b"/loop", b"/foo/x", b"/aaabb", b"/up/a"):
